@@ -10,6 +10,13 @@ KANI = {
     "C09": {"complete": ["u0_encoded_len_is_spec", "u3_roundup_key_table", "u3_roundup_val_table", "u3_tables_are_the_documented_ones"], "bounded": {}},
 }
 VERUS_PROPS = set()   # filled from the overlay (@serves)
+# obligations that are verified in a property's closure but are not part of that property's statement
+# (the panic sites are obligations of the properties that promise "never panics": C01, C07, C08)
+NOT_ATTRIBUTED = {
+    "C03": [r"/pre:vpanic#"], "C05": [r"/pre:vpanic#"], "C06": [r"/pre:vpanic#"], "C09": [r"/pre:vpanic#"],
+    "C15": [r"/pre:vpanic#"], "C16": [r"/pre:vpanic#"], "C18": [r"/pre:vpanic#"], "C04": [r"/pre:vpanic#"], "C17": [r"/pre:vpanic#"],
+    "C02": [r"/pre:vpanic#"], "C12": [r"/pre:vpanic#"], "C13": [r"/pre:vpanic#"],
+}
 
 def sanitize(s):
     return re.sub(r"[^A-Za-z0-9_.#-]+", "_", s)[:120]
@@ -143,6 +150,15 @@ def check(prop, tier, args):
                     undecided.append("kani harness %s did not run" % h)
     # ------------------------------------------------------------------ classify
     violations = []; knowns = []
+    not_attr = []
+    keep = []
+    for f in failures:
+        if any(re.search(rx, f["oid"]) for rx in NOT_ATTRIBUTED.get(prop, [])):
+            not_attr.append(f["oid"])
+        else:
+            keep.append(f)
+    failures = keep
+    cov["failed_obligations_of_other_properties"] = not_attr
     for f in failures:
         k = run.match_known(known, prop, f["oid"])
         if k: knowns.append((f, k))
